@@ -37,6 +37,20 @@ impl SharedPendingRequests {
     pub uninterp spec fn registered(&self, k: u32, c: int) -> bool;
     #[verifier::external_body] pub async fn lock(&self) -> (r: PendingGuard) ensures r.owner() == *self { unimplemented!() }
 }
+#[verifier::external_body] pub struct TryLockError { _p: u8 }
+impl SharedPendingRequests {
+    #[verifier::external_body] pub fn try_lock(&self) -> (r: core::result::Result<PendingGuard, TryLockError>) ensures r is Ok ==> r->Ok_0.owner() == *self { unimplemented!() }
+    #[verifier::external_body] pub fn blocking_lock(&self) -> (r: PendingGuard) ensures r.owner() == *self { unimplemented!() }
+}
+impl PendingGuard {
+    // the table only changes by registering a request (insert) and by dispatching / abandoning ONE request (remove):
+    // anything that drops other callers' reply channels breaks their in-flight requests
+    #[verifier::external_body] pub fn clear(&mut self) requires false /* [C04.pending_requests_change_only_by_insert_and_remove] */ { unimplemented!() }
+    #[verifier::external_body] pub fn drain(&mut self) requires false /* [C04.pending_requests_change_only_by_insert_and_remove] */ { unimplemented!() }
+    #[verifier::external_body] pub fn len(&self) -> (r: usize) { unimplemented!() }
+    #[verifier::external_body] pub fn is_empty(&self) -> (r: bool) { unimplemented!() }
+    #[verifier::external_body] pub fn contains_key(&self, k: &u32) -> (r: bool) ensures r == self.view().contains_key(*k) { unimplemented!() }
+}
 impl Clone for SharedPendingRequests { #[verifier::external_body] fn clone(&self) -> (r: Self) ensures r == *self { unimplemented!() } }
 impl PendingGuard {
     pub uninterp spec fn owner(&self) -> SharedPendingRequests;
